@@ -206,7 +206,7 @@ Lemma NI_unmap : forall ports n a c, NI ports n ->
   exists n' out, nrt_unmap n a c = Some (n', out) /\ NI ports n' /\ learnQ n' = learnQ n /\
     (forall a2 c2, akind n' a2 c2 = if (a2 =? a) && Bool.eqb c2 c then -1 else akind n a2 c2) /\
     (if akind n a c =? -1 then out = [] /\ nstorage n' = nstorage n
-     else exists s', out = [RBind s'] /\ nstorage n' = Some s').
+     else exists s', out = [RBind s' (-1)] /\ nstorage n' = Some s').
 Proof.
   intros ports n a c I. unfold nrt_unmap.
   destruct (inv_find a (inv_map n)) as [im |] eqn:F.
@@ -252,7 +252,7 @@ Proof.
     { intro a2. unfold inv'. destruct (kind_id (negb c) im =? -1).
       - rewrite inv_find_erase. reflexivity.
       - rewrite inv_find_set'. reflexivity. }
-    exists {| nstorage := Some s'; inv_map := inv'; learnQ := learnQ n |}, [RBind s'].
+    exists {| nstorage := Some s'; inv_map := inv'; learnQ := learnQ n |}, [RBind s' (-1)].
     split; [reflexivity |].
     assert (Kin : forall t, In t (mapping s) -> me_id t = kind_id c im -> t = (kind_id c im, c, im_loc im)).
     { intros t Ht E. apply (ids_inj (mapping s)); auto. }
@@ -399,7 +399,7 @@ Proof. intros [s |] p a; reflexivity. Qed.
 
 Lemma NI_use : forall ports n id a c q, NI ports n -> learnQ n = (a, c) :: q -> 0 <= id ->
   ~ In id (mids (omap (nstorage n))) ->
-  exists n' s', nrt_useFreeID ports n id = Some (n', [RBind s']) /\ NI ports n' /\
+  exists n' s', nrt_useFreeID ports n id = Some (n', [RBind s' id]) /\ NI ports n' /\
     nstorage n' = Some s' /\ learnQ n' = q /\
     (forall a2 c2, akind n' a2 c2 = if (a2 =? a) && Bool.eqb c2 c then id else akind n a2 c2).
 Proof.
@@ -491,7 +491,7 @@ Proof.
 Qed.
 
 Definition binds_are (o : option store) (out : list rmsg) : Prop :=
-  Forall (fun m => match m with RBind s' => o = Some s' | _ => True end) out.
+  Forall (fun m => match m with RBind s' _ => o = Some s' | _ => True end) out.
 
 Lemma NI_map : forall ports n a c, NI ports n -> (exists p, nthZ ports a = Some p) ->
   exists n' out, nrt_map n a c = Some (n', out) /\ NI ports n' /\ binds_are (nstorage n') out /\
@@ -500,7 +500,7 @@ Lemma NI_map : forall ports n a c, NI ports n -> (exists p, nthZ ports a = Some 
           (forall a2 c2, akind n' a2 c2 = if (a2 =? a) && Bool.eqb c2 c then -1 else akind n a2 c2) /\
           exists out0, out = out0 ++ [RWatch] /\
             (if akind n a c =? -1 then out0 = [] /\ nstorage n' = nstorage n
-             else exists s', out0 = [RBind s'] /\ nstorage n' = Some s')).
+             else exists s', out0 = [RBind s' (-1)] /\ nstorage n' = Some s')).
 Proof.
   intros ports n a c I Hp. unfold nrt_map.
   destruct (qmem a c (learnQ n)) eqn:Qm.
@@ -734,7 +734,7 @@ Proof.
 Qed.
 
 Definition msg_ok (ports : list port) (m : rmsg) : Prop :=
-  match m with RBind s => SW ports s /\ Forall (fun v => v = 0) (values s) | _ => True end.
+  match m with RBind s _ => SW ports s /\ Forall (fun v => v = 0) (values s) | _ => True end.
 
 Lemma rt_deliver_ok : forall ports r m, RI ports r -> msg_ok ports m ->
   exists r', rt_deliver r m = Some r' /\ RI ports r'.
@@ -742,7 +742,9 @@ Proof.
   intros ports r m [Wq Ws] Hm. destruct m; cbn [rt_deliver].
   - eexists. split; [reflexivity |]. split; assumption.
   - eexists. split; [reflexivity |]. split; assumption.
-  - destruct (pq_pop_ok _ Wq) as [q' [Ep Wq']]. rewrite Ep.
+  - assert (Hq : exists q', (if ans =? -1 then Some (pending r) else pq_pop (pending r)) = Some q' /\ pq_wf q').
+    { destruct (ans =? -1); [exists (pending r); split; [reflexivity | assumption] | apply pq_pop_ok; assumption]. }
+    destruct Hq as [q' [Ep Wq']]. rewrite Ep.
     destruct (rstorage r) as [old |].
     + destruct Hm as [Hm Hz]. destruct (cloneValues_ok ports s old Hm Ws) as [c [Ec [Wc _]]]. rewrite Ec.
       eexists. split; [reflexivity |]. split; assumption.
@@ -886,7 +888,7 @@ Qed.
 Theorem learn_shares_slot : forall ports n id a c q, NI ports n -> learnQ n = (a, c) :: q ->
   0 <= id -> ~ In id (mids (omap (nstorage n))) ->
   exists n' s' p loc,
-    nrt_useFreeID ports n id = Some (n', [RBind s']) /\ NI ports n' /\ nstorage n' = Some s' /\
+    nrt_useFreeID ports n id = Some (n', [RBind s' id]) /\ NI ports n' /\ nstorage n' = Some s' /\
     learnQ n' = q /\ SW ports s' /\ nthZ ports a = Some p /\
     find_map id (mapping s') = Some (id, c, loc) /\
     nthZ (callbacks s') loc = Some (mk_cb p a) /\
